@@ -241,6 +241,37 @@ def cli_compile(ctx, ids, mtv, b, spec):
                     'decoding with the template printed by `pybufrkit compile` differs from the interpreted decode', dict(spec, cli='compile'))
 
 
+def refused_programs(ctx, decs, encs):
+    """templates that are refused (a descriptor in no table, an operator that is not implemented) at the top level, inside a fixed
+    and inside a delayed replication: same error with compilation on, first time and again (nothing half-compiled is kept)"""
+    B, D = cases.tables(33)
+    rng = ctx.rng
+    variants = [([1001, 12001, 2001], 1, 63255), ([1001, 102002, 12001, 2001], 3, 63255), ([1001, 102002, 12001, 2001], 2, 12250),
+                ([101000, 31001, 12001, 1001], 2, 48001), ([1001, 103002, 12001, 2001, 1002], 3, 363255),
+                ([1001, 102002, 12001, 2001], 3, 241000), ([101000, 31001, 12001, 1001], 2, 0)]
+    for vi, (ids, pos, bad) in enumerate(variants):
+        if not ctx.mine(vi):
+            continue
+        for comp in (False, True):
+            try:
+                msg = R.build_message(ids, B, D, AssignPolicy(rng, [2], [0], phase=vi), 2, comp, 4)
+            except R.Unsupported:
+                continue
+            fr = R.parse_frame(msg.bytes)
+            st = fr.sections[3][0] + 7 + 2 * pos
+            b = bytearray(msg.bytes)
+            b[st] = ((bad // 100000) << 6) | (bad // 1000 % 100)
+            b[st + 1] = bad % 1000
+            ids2 = list(ids)
+            ids2[pos] = bad
+            spec = dict(origin='refused-program', ids=ids2, compressed=comp, hex=bytes(b).hex())
+            for rep in range(2):
+                ctx.count('refused_programs')
+                compare_message(ctx, decs, encs, bytes(b), ids2, spec, do_encode=False)
+            # an intact message with the ORIGINAL list afterwards is not affected either
+            compare_message(ctx, decs, encs, msg.bytes, ids, dict(spec, ids=ids, hex=msg.bytes.hex(), after='refused'), do_encode=False)
+
+
 def count_delayed(ids, D, depth=0):
     n = 0
     for i in ids:
@@ -481,6 +512,7 @@ def run(ctx):
     decs, encs = make_coders()
     version_collisions(ctx)
     structure_collisions(ctx)
+    refused_programs(ctx, decs, encs)
     B33, D33 = cases.tables(33)
     pool = []
     # hand-made shapes (scoped only)
